@@ -94,6 +94,8 @@ pub struct Swarm {
     /// parsers with `max_width` other than the default (never in C11, whose prediction renders
     /// at the default width)
     pub widths: bool,
+    /// values with an audible destructor (C11 only: they ring on the simulated stdout)
+    pub bells: bool,
     pub max_depth: usize,
 }
 
@@ -111,6 +113,7 @@ impl Swarm {
             unicode: r.chance(1, 3),
             positionals: r.chance(3, 4),
             widths: r.chance(1, 2),
+            bells: false,
             max_depth: r.range(1, 4),
         }
     }
@@ -127,6 +130,7 @@ impl Swarm {
             unicode: true,
             positionals: true,
             widths: true,
+            bells: false,
             max_depth: 4,
         }
     }
@@ -314,6 +318,7 @@ impl<'a> Gen<'a> {
                 },
                 6 => W::Count,
                 7 => W::Last,
+                8 if self.sw.bells && self.r.chance(1, 2) => W::FallbackBell,
                 8 | 9 => W::Fallback {
                     val: *self.r.pick(&[0i64, 5, 13, 42][..]),
                     display: self.r.below(4) as u8,
